@@ -193,6 +193,26 @@ func htmlBoundaryInputs() []string {
 				add(strings.ReplaceAll(t, "W", r))
 			}
 		}
+		// look-alike characters in place of the structural bytes, and fullwidth names
+		for _, v := range []string{"<script>alert(1)</script>", "<style>", "x onerror=alert(1)", "' onclick=1 '", "<a href=javascript:x>", "<img src=x onerror=1>", "style=x", "\" onload=1 \"", "<!--x--><script>", "<!doctype html>"} {
+			for k := 0; k < 4; k++ {
+				add(gen.Confuse(v, k))
+				add("text " + gen.Confuse(v, k) + " more")
+			}
+			add(gen.Fullwidth(v))
+			add(gen.Confuse(gen.Fullwidth(v), 0))
+		}
+		// numeric references above 0xFF whose low byte is the letter that would complete a scheme
+		for _, sc := range []string{"javascript:", "data:", "vbscript:", "view-source:"} {
+			for i := 0; i < len(sc)-1; i++ {
+				for _, k := range []int{1, 2, 256, 4096} {
+					ref := fmt.Sprintf("&#%d;", int(sc[i])+256*k)
+					refx := fmt.Sprintf("&#x%x;", int(sc[i])+256*k)
+					add("<a href=\"" + sc[:i] + ref + sc[i+1:] + "alert(1)\">")
+					add("<a href=" + sc[:i] + refx + sc[i+1:] + "x>")
+				}
+			}
+		}
 		// CDATA opener case variants in front of vectors
 		for _, cd := range []string{"<![cdata[", "<![CData[", "<![cDATA[", "<![CDATA["} {
 			for _, v := range []string{"<script>alert(1)</script>", " a='><script>alert(1)</script>'", ">x<iframe>", "]]><script>"} {
